@@ -5,6 +5,7 @@ import (
 	"fmt"
 	"io"
 	"log"
+	"net"
 	"os"
 	"runtime/debug"
 	"strings"
@@ -139,6 +140,11 @@ var discard = log.New(io.Discard, "", 0)
 
 // RunSession runs one B2F session between the two stations over a fresh link configured from sc.
 func RunSession(sc *Scenario, st map[string]*Station, r *Recorder, configure func(*Link), updaters map[string]fbb.StatusUpdater) Result {
+	return RunSessionOpts(sc, st, r, configure, updaters, false)
+}
+
+// RunSessionOpts is RunSession with the option of handing the sessions a transport that reports a transmit buffer.
+func RunSessionOpts(sc *Scenario, st map[string]*Station, r *Recorder, configure func(*Link), updaters map[string]fbb.StatusUpdater, tx bool) Result {
 	l := NewLink(sc.Seed + int64(sc.ID)*7919)
 	if sc.Sched != "" {
 		l.Sched = sc.Sched
@@ -186,7 +192,10 @@ func RunSession(sc *Scenario, st map[string]*Station, r *Recorder, configure fun
 		if updaters != nil && updaters[name] != nil {
 			sess.SetStatusUpdater(updaters[name])
 		}
-		conn := l.End(name)
+		var conn net.Conn = l.End(name)
+		if tx {
+			conn = &txEnd{End: l.End(name)}
+		}
 		go func() {
 			var rt ret
 			rt.s = name
